@@ -69,27 +69,48 @@ def collect(wt, name, prop):
     return ok
 
 
-def detect(name, props):
+def detect(name, props, inplace=False):
+    """Run the quick check(s) against the seeded change.  Default: in a scratch worktree of /repo
+    (VERIF_REPO development override), so /repo is never touched and several detections can run
+    side by side; --inplace applies the patch to /repo itself and undoes it afterwards."""
     d = SEEDED / name
     meta = json.load(open(d / "meta.json"))
     props = props or [meta["property"]]
-    rc, st = sh("git status --porcelain", cwd="/repo")
-    assert not st.strip(), "/repo is dirty: " + st
-    rc, o = sh(f"git apply {d/'patch.diff'}", cwd="/repo")
-    assert rc == 0, "patch does not apply: " + o
+    env = dict(os.environ)
+    if inplace:
+        rc, st = sh("git status --porcelain", cwd="/repo")
+        assert not st.strip(), "/repo is dirty: " + st
+        rc, o = sh(f"git apply {d/'patch.diff'}", cwd="/repo")
+        assert rc == 0, "patch does not apply: " + o
+    else:
+        wt = Path("/tmp/sv_detect") / name
+        sh(f"git worktree remove --force {wt}", cwd="/repo")
+        wt.parent.mkdir(parents=True, exist_ok=True)
+        rc, o = sh(f"git worktree add --detach {wt} HEAD", cwd="/repo")
+        assert rc == 0, o
+        rc, o = sh(f"git apply {d/'patch.diff'}", cwd=wt)
+        assert rc == 0, "patch does not apply: " + o
+        env["VERIF_REPO"] = str(wt)
     res = {}
     try:
         for p in props:
             t0 = time.time()
-            rc, o = sh(f"python3 check.py {p} --tier quick", cwd=VERIF)
+            pr = subprocess.run(["python3", "check.py", p, "--tier", "quick"], cwd=VERIF, env=env, capture_output=True, text=True)
+            rc, o = pr.returncode, pr.stdout + pr.stderr
             lines = [l for l in o.splitlines() if l.startswith(("VIOLATION", "KNOWN-FINDING", "OK ", "TOOL"))]
             res[p] = {"exit": rc, "wall_s": round(time.time() - t0, 1),
                       "lines": [l[:300] for l in lines[:6]]}
-            print(name, p, "exit", rc, (lines[0][:200] if lines else o[-300:]))
+            first = next((l for l in lines if l.startswith("VIOLATION")), lines[0] if lines else o[-300:])
+            print(name, p, "exit", rc, first[:200], flush=True)
     finally:
-        sh("git checkout -- .", cwd="/repo")
-        rc, st = sh("git status --porcelain", cwd="/repo")
-        assert not st.strip(), "could not restore /repo: " + st
+        if inplace:
+            sh("git checkout -- .", cwd="/repo")
+            rc, st = sh("git status --porcelain", cwd="/repo")
+            assert not st.strip(), "could not restore /repo: " + st
+        else:
+            sh(f"git worktree remove --force {wt}", cwd="/repo")
+            import hashlib
+            shutil.rmtree(VERIF / "work" / ("alt_" + hashlib.sha1(str(wt).encode()).hexdigest()[:8]), ignore_errors=True)
     meta.setdefault("detection", {}).update(res)
     meta["detected_by"] = sorted(p for p, r in meta["detection"].items() if r["exit"] == 1)
     (d / "meta.json").write_text(json.dumps(meta, indent=1) + "\n")
@@ -100,4 +121,5 @@ if __name__ == "__main__":
     if sys.argv[1] == "collect":
         sys.exit(0 if collect(sys.argv[2], sys.argv[3], sys.argv[4]) else 1)
     elif sys.argv[1] == "detect":
-        detect(sys.argv[2], sys.argv[3:])
+        args = [a for a in sys.argv[2:] if a != "--inplace"]
+        detect(args[0], args[1:], inplace="--inplace" in sys.argv)
